@@ -22,6 +22,7 @@ impl Trace {
         }
     }
     pub fn emit(&mut self, mut v: Value) {
+        denull(&mut v);
         self.n += 1;
         v["n"] = Value::from(self.n);
         serde_json::to_writer(&mut self.out, &v).unwrap();
@@ -104,5 +105,15 @@ impl Watchdog {
     }
     pub fn pause(&self) {
         self.last.store(u64::MAX, Ordering::SeqCst);
+    }
+}
+
+/// TLC's Json module has no null: absent/optional values are logged as ""
+pub fn denull(v: &mut Value) {
+    match v {
+        Value::Null => *v = Value::String(String::new()),
+        Value::Array(a) => a.iter_mut().for_each(denull),
+        Value::Object(o) => o.values_mut().for_each(denull),
+        _ => {}
     }
 }
